@@ -70,14 +70,21 @@ theorem exprForces_false {l r : Value} {op : Char} {m : Mode}
     cases oth <;> simp [Value.isNumeric] at h2
     exact ⟨_, _, _, _, rfl⟩
 
-/-- `label ± k`: the target is `address(label) + k`, resp. `address(label) − k` modulo 65536 -/
+theorem signedK_bound (k : Nat) (nn : Bool) : -(k : Int) ≤ signedK k nn ∧ signedK k nn ≤ k := by
+  unfold signedK; split <;> omega
+
+/-- `label ± k`: the target is `|address(label) + c|`, resp. `address(label) − c` modulo 65536, `c` the SIGNED constant
+(`exprExtra`, which widens the estimates of the size loop, is its magnitude).  NB (finding, true of model and code):
+for `+` the target is the MAGNITUDE of the sum (`fix_addresses` takes the `.int` of the value), so `L+N,PCR` with a
+negative `N` below `−address(L)` aims at `|address(L) + N|`, not at the sum modulo 65536 -/
 theorem fixRel_target_expr {ss : List Stmt} {s2 : Stmt} {l r : Value} {op : Char} {m : Mode} {b target : Nat}
     (hidx : (s2.operand.kind == .indexed || s2.operand.kind == .extIndirect) = true)
     (ha : s2.pkg.additional = .expr l r op m true) (hf : exprForces s2.pkg.additional = false)
     (hr : relIndex s2.pkg.additional = some b) (h : fixRel ss s2 = .ok target) :
     ∃ y k hh mm nn, addrIntOf ss b = some y ∧ (if l.isAddress then r else l) = .numeric k hh mm nn ∧
       exprExtra s2.pkg.additional = k ∧
-      ((op = '+' ∧ (target : Int) = (y : Int) + k) ∨ (op = '-' ∧ (target : Int) = ((y : Int) - k) % 65536)) := by
+      ((op = '+' ∧ target = ((y : Int) + signedK k nn).natAbs) ∨
+       (op = '-' ∧ (target : Int) = ((y : Int) - signedK k nn) % 65536)) := by
   rw [ha] at hf hr
   obtain ⟨hop, k, hh, mm, nn, hoth⟩ := exprForces_false hf
   have hrel : (if l.isAddress = true then l.int? else r.int?) = some b := hr
@@ -98,9 +105,17 @@ theorem fixRel_target_expr {ss : List Stmt} {s2 : Stmt} {l r : Value} {op : Char
     dsimp only at h
     refine ⟨y, k, hh, mm, nn, rfl, hoth, hx, ?_⟩
     unfold addrCombine at h
+    change (match (match (if (op == '+') = true then some ((y : Int) + signedK k nn)
+        else if (op == '-') = true then some (((y : Int) - signedK k nn) % 65536)
+        else if (op == '*') = true then some ((y : Int) * signedK k nn)
+        else if signedK k nn = 0 then none else some (Int.tdiv (y : Int) (signedK k nn)) : Option Int) with
+      | none => Outcome.diag
+      | some z => (match numericOfInt z (some 4) .extended with | .ok nv => Outcome.ok nv | .error _ => .diag)) with
+      | .ok v => (match v.int? with | some n => Outcome.ok n | none => .internal)
+      | .diag => .diag | .internal => .internal | .diverged => .diverged) = .ok target at h
     rcases hop with rfl | rfl
     · simp only [beq_self_eq_true, if_true] at h
-      cases hn : numericOfInt ((y : Int) + k) (some 4) .extended with
+      cases hn : numericOfInt ((y : Int) + signedK k nn) (some 4) .extended with
       | error e => rw [hn] at h; cases h
       | ok v =>
         rw [hn] at h
@@ -109,10 +124,10 @@ theorem fixRel_target_expr {ss : List Stmt} {s2 : Stmt} {l r : Value} {op : Char
         rw [hi] at h
         cases h
         left
-        exact ⟨rfl, by omega⟩
+        exact ⟨rfl, rfl⟩
     · have hne : ('-' == '+') = false := by decide
       simp only [hne, Bool.false_eq_true, if_false, beq_self_eq_true, if_true] at h
-      cases hn : numericOfInt (((y : Int) - k) % 65536) (some 4) .extended with
+      cases hn : numericOfInt (((y : Int) - signedK k nn) % 65536) (some 4) .extended with
       | error e => rw [hn] at h; cases h
       | ok v =>
         rw [hn] at h
@@ -139,7 +154,7 @@ structure PcrPre {fs : Files} {lines : List Str} {a : Assembly} (st : Stages fs 
   choices : s4.pkg.choices ≠ []
   stored : ∃ target start v, fixRel st.ss4 s4 = .ok target ∧ addrIntOf st.ss4 i = some start ∧
       numericOfInt (pcrJump s4 target start) (some s4.pcrHint) .none = .ok v ∧
-      fitWidth (withAdditional s4 v) = .ok s
+      fitWidth (withAdditional s4 v) = .ok s ∧ ¬ pcrOut s4 target start
   /-- the row is a row of the instruction table -/
   row : s4.row ∈ Gen.instructions
   /-- op code and post byte: the indexed op code of the row, and one byte -/
@@ -208,9 +223,9 @@ theorem Stages.pcr_pre {fs : Files} {lines : List Str} {a : Assembly} (st : Stag
       (fun _ _ _ => KeepRel.trans)).get' hs3
     rw [hk0.2]
     exact (hpar s0 (List.mem_of_getElem? hs0)).1
-  obtain ⟨target, start, v, q1, q2, q3, rfl⟩ := fixOne_pcr hk hv1 hv2 hv3 hn4 hfix
+  obtain ⟨target, start, v, q1, q2, q3, rfl, q5⟩ := fixOne_pcr_in hk hv1 hv2 hv3 hn4 hfix
   exact ⟨s3, s4, ⟨hs3, hs4, hrel34, hsame, ⟨_, hfix, hfit⟩, hidx, hleft4, by rw [hpk4.1]; exact hch3,
-    ⟨target, start, v, q1, q2, q3, hfit⟩, by rw [h34.1]; exact hrow3,
+    ⟨target, start, v, q1, q2, q3, hfit, q5⟩, by rw [h34.1]; exact hrow3,
     ⟨by rw [h34.1, h34.2.1]; exact hop3, by rw [h34.2.2.1]; exact hpb3⟩,
     fun hh => by rw [h34.2.2.2.1, h34.1]; exact hsz3 (by rw [← h34.2.2.2.2]; exact hh)⟩⟩
 
@@ -303,11 +318,13 @@ theorem pcrJump_hint2 {s : Stmt} (hh : s.pcrHint = 2) (r start : Nat) :
   simp [hh]
 
 /-- the shape of the offset of an 8-bit PCR statement and the signed distance `d` it denotes: a plain label
-(`d = y − x − size`) or `label ± k` with a numeric `k` (`d = y ± k − x − size`) -/
+(`d = y − x − size`) or `label ± c` with a signed numeric constant `c = signedK k nn`
+(`d = |y + c| − x − size`, resp. `d = y − c − x − size`; see `fixRel_target_expr` for the magnitude) -/
 def Dist8 (addl : Value) (x y size : Nat) (d : Int) : Prop :=
   (addl.isAddrExpr = false ∧ d = (y : Int) - x - size) ∨
   (∃ l r op m k hh mm nn, addl = .expr l r op m true ∧ (if l.isAddress then r else l) = .numeric k hh mm nn ∧
-    ((op = '+' ∧ d = (y : Int) + k - x - size) ∨ (op = '-' ∧ d = (y : Int) - k - x - size)))
+    ((op = '+' ∧ d = (((y : Int) + signedK k nn).natAbs : Int) - x - size) ∨
+     (op = '-' ∧ d = (y : Int) - signedK k nn - x - size)))
 
 /-- the instruction table: a row with an indexed op code is neither pseudo nor special, and its indexed base
 size is the op code plus one byte (the post byte) -/
@@ -400,7 +417,7 @@ theorem Stages.pcr8_stored {fs : Files} {lines : List Str} {a : Assembly} (st : 
   refine ⟨b, hb, hf, ?_⟩
   intro t ht hno
   obtain ⟨x, y, hx, hy, hlo, hhi⟩ := hdist t ht hno
-  obtain ⟨target, start, v, htgt, hstart, hnum, hsv⟩ := pre.stored
+  obtain ⟨target, start, v, htgt, hstart, hnum, hsv, _⟩ := pre.stored
   have hstart' : start = x := by
     rw [st.addrIntOf4 hs, hx] at hstart; exact (Option.some.inj hstart).symm
   subst hstart'
@@ -433,19 +450,120 @@ theorem Stages.pcr8_stored {fs : Files} {lines : List Str} {a : Assembly} (st : 
         have : y = y' := Option.some.inj hy'
         subst this
         rw [hx'] at hlo hhi
+        have hkb := signedK_bound k hk3
         rcases hcase with ⟨rfl, htg⟩ | ⟨rfl, htg⟩
         · have hd : ((target : Int) - start - s4.pkg.size + 32768) % 65536 - 32768 =
-              (y : Int) + k - start - s4.pkg.size := by omega
+              (((y : Int) + signedK k hk3).natAbs : Int) - start - s4.pkg.size := by omega
           rw [hd] at hnum
           obtain ⟨f1, _, _, f2⟩ := pre.field8 hh4 hnum hsv
           exact ⟨start, y, v, _, hx, hy, by omega, by omega, hnum, f1, f2,
             .inr ⟨l, r, '+', m, k, hk1, hk2, hk3, rfl, hoth, .inl ⟨rfl, rfl⟩⟩⟩
         · have hd : ((target : Int) - start - s4.pkg.size + 32768) % 65536 - 32768 =
-              (y : Int) - k - start - s4.pkg.size := by omega
+              (y : Int) - signedK k hk3 - start - s4.pkg.size := by omega
           rw [hd] at hnum
           obtain ⟨f1, _, _, f2⟩ := pre.field8 hh4 hnum hsv
           exact ⟨start, y, v, _, hx, hy, by omega, by omega, hnum, f1, f2,
             .inr ⟨l, r, '-', m, k, hk1, hk2, hk3, rfl, hoth, .inr ⟨rfl, rfl⟩⟩⟩
+    | _ => rw [hav] at he; simp [Value.isAddrExpr] at he
+
+/-! ### batch B2: the 8-bit form is range-checked by `fix_addresses` itself (ORG or not) -/
+
+theorem pcrDist_same {fs : Files} {lines : List Str} {a : Assembly} {st : Stages fs lines a}
+    {i : Nat} {s s3 s4 : Stmt} (pre : PcrPre st i s s3 s4) (t x : Nat) : pcrDist s t x = pcrDist s4 t x := by
+  unfold pcrDist; rw [pre.same.2.1]
+
+/-- an address looked up in the list that enters `fix_addresses` is the address of the final statement -/
+theorem Stages.addrIntOf4_some {fs : Files} {lines : List Str} {a : Assembly} (st : Stages fs lines a)
+    {j y : Nat} (h : addrIntOf st.ss4 j = some y) : ∃ t, a.stmts[j]? = some t ∧ addrNat t = some y := by
+  cases h4 : st.ss4[j]? with
+  | none => simp [addrIntOf, addrOf, h4] at h
+  | some t4 =>
+    obtain ⟨t, ht, _⟩ := (fixAll_pw st.hfix).get h4
+    exact ⟨t, ht, by rw [← st.addrIntOf4 ht]; exact h⟩
+
+/-- **the 8-bit PCR form, for EVERY accepted program** (no hypothesis on ORGs): `fix_addresses` computed the target
+(`fixRel`), the signed 16-bit distance `d = pcrDist` from the end of the statement to it lies in `−128 .. 127`
+(otherwise the program is rejected: "out of range of the 8-bit offset"), and the final field is the two's complement
+byte of `d` -/
+theorem Stages.pcr8_any {fs : Files} {lines : List Str} {a : Assembly} (st : Stages fs lines a)
+    {i : Nat} {s s3 s4 : Stmt} (hs : a.stmts[i]? = some s) (hh : s.pcrHint = 2) (pre : PcrPre st i s s3 s4) :
+    ∃ target x v, fixRel st.ss4 s4 = .ok target ∧ addrNat s = some x ∧
+      -128 ≤ pcrDist s target x ∧ pcrDist s target x ≤ 127 ∧
+      numericOfInt (pcrDist s target x) (some 2) .none = .ok v ∧ fitWidth (withAdditional s v) = .ok s ∧
+      s.pkg.additional = .numeric (pcrDist s target x % 256).toNat (some 2) .extended false := by
+  obtain ⟨target, start, v, htgt, hstart, hnum, hsv, hin⟩ := pre.stored
+  have hx : addrNat s = some start := by rw [← st.addrIntOf4 hs]; exact hstart
+  have hh4 : s4.pcrHint = 2 := by rw [← pre.same.1]; exact hh
+  have hd : pcrJump s4 target start = pcrDist s4 target start := by rw [pcrJump_hint2 hh4]; rfl
+  rw [hd, hh4] at hnum
+  have hr : -128 ≤ pcrDist s4 target start ∧ pcrDist s4 target start ≤ 127 := by
+    unfold pcrOut at hin
+    rw [hh4] at hin
+    generalize pcrDist s4 target start = d at hin
+    have h24 : (2 : Nat) ≠ 4 := by decide
+    by_cases h1 : d < -128
+    · exact absurd ⟨h24, Or.inl h1⟩ hin
+    · by_cases h2 : d > 127
+      · exact absurd ⟨h24, Or.inr h2⟩ hin
+      · omega
+  obtain ⟨f1, _, _, f2⟩ := pre.field8 hh4 hnum hsv
+  refine ⟨target, start, v, htgt, hx, ?_⟩
+  rw [pcrDist_same pre]
+  exact ⟨hr.1, hr.2, hnum, f1, f2⟩
+
+/-- the signed 16-bit reading of an integer distance -/
+def sdist16 (z : Int) : Int := (z + 0x8000) % 0x10000 - 0x8000
+
+theorem pcrDist_eq (s : Stmt) (t x : Nat) : pcrDist s t x = sdist16 ((t : Int) - x - s.pkg.size) := rfl
+
+theorem sdist16_of_range {z : Int} (h1 : -32768 ≤ z) (h2 : z ≤ 32767) : sdist16 z = z := by
+  unfold sdist16; omega
+
+theorem sdist16_mod (z : Int) : sdist16 (z % 65536) = sdist16 z := by
+  unfold sdist16; omega
+
+theorem sdist16_range (z : Int) : -32768 ≤ sdist16 z ∧ sdist16 z ≤ 32767 ∧ (sdist16 z - z) % 65536 = 0 := by
+  unfold sdist16; omega
+
+/-- the target of an 8-bit PCR statement in terms of the final statements: the address `y` of the statement `t` the
+operand names, `|y + c|` for `label + c`, `(y − c) mod 65536` for `label − c` (`c = signedK k nn` the signed constant) -/
+def Target8 (addl : Value) (y target : Nat) : Prop :=
+  (addl.isAddrExpr = false ∧ target = y) ∨
+  (∃ l r op m k hh mm nn, addl = .expr l r op m true ∧ (if l.isAddress then r else l) = .numeric k hh mm nn ∧
+    ((op = '+' ∧ target = ((y : Int) + signedK k nn).natAbs) ∨
+     (op = '-' ∧ (target : Int) = ((y : Int) - signedK k nn) % 65536)))
+
+/-- **the 8-bit PCR form of every accepted program, with the target spelt out**: the operand names a statement
+`b` (`relIndex`), is a plain label or `label ± number`, `b` exists with address `y`, and the field is the two's
+complement byte of the signed 16-bit distance `d` from the end of `s` to the target (`Target8`), `−128 ≤ d ≤ 127` -/
+theorem Stages.pcr8_any_target {fs : Files} {lines : List Str} {a : Assembly} (st : Stages fs lines a)
+    {i : Nat} {s s3 s4 : Stmt} (hs : a.stmts[i]? = some s) (hn : s.pkg.needsRes = true) (hh : s.pcrHint = 2)
+    (pre : PcrPre st i s s3 s4) :
+    ∃ b t x y target v, relIndex s4.pkg.additional = some b ∧ exprForces s4.pkg.additional = false ∧
+      a.stmts[b]? = some t ∧ addrNat s = some x ∧ addrNat t = some y ∧ Target8 s4.pkg.additional y target ∧
+      -128 ≤ sdist16 ((target : Int) - x - s.pkg.size) ∧ sdist16 ((target : Int) - x - s.pkg.size) ≤ 127 ∧
+      numericOfInt (sdist16 ((target : Int) - x - s.pkg.size)) (some 2) .none = .ok v ∧
+      fitWidth (withAdditional s v) = .ok s ∧
+      s.pkg.additional = .numeric (sdist16 ((target : Int) - x - s.pkg.size) % 256).toNat (some 2) .extended false := by
+  obtain ⟨b, hb, hf, _⟩ := st.pcr8_dist hs hn hh pre
+  obtain ⟨target, x, v, htgt, hx, hlo, hhi, hnum, hfit, hadd⟩ := st.pcr8_any hs hh pre
+  rw [pcrDist_eq] at hlo hhi hnum hadd
+  cases he : s4.pkg.additional.isAddrExpr with
+  | false =>
+    have hy' := fixRel_target_plain he hb htgt
+    obtain ⟨t, ht, hy⟩ := st.addrIntOf4_some hy'
+    exact ⟨b, t, x, target, target, v, hb, hf, ht, hx, hy, .inl ⟨he, rfl⟩, hlo, hhi, hnum, hfit, hadd⟩
+  | true =>
+    cases hav : s4.pkg.additional with
+    | expr l r op m ae =>
+      cases ae with
+      | false => rw [hav] at he; simp [Value.isAddrExpr] at he
+      | true =>
+        obtain ⟨y, k, hk1, hk2, hk3, hy', hoth, _, hcase⟩ := fixRel_target_expr pre.idx hav hf hb htgt
+        obtain ⟨t, ht, hy⟩ := st.addrIntOf4_some hy'
+        rw [← hav]
+        exact ⟨b, t, x, y, target, v, hb, hf, ht, hx, hy,
+          .inr ⟨l, r, op, m, k, hk1, hk2, hk3, hav, hoth, hcase⟩, hlo, hhi, hnum, hfit, hadd⟩
     | _ => rw [hav] at he; simp [Value.isAddrExpr] at he
 
 end CoCo.Asm
